@@ -20,6 +20,7 @@ from translate import c02_blockvars
 KNOWN_FOR_TARGET = 'for-target-killed-on-zero-iterations'
 KNOWN_PREV_ITER = 'get-state-reads-variable-bound-only-by-previous-iteration'
 KNOWN_SPECULATIVE = 'speculative-branch-after-lowered-jump-reads-undefined'
+KNOWN_FOR_TARGET_BODY = 'for-target-reassigned-in-body-not-an-output'
 _last_exc = {}
 
 
@@ -184,6 +185,24 @@ def _remember(e):
         tb = tb.tb_next
     _last_exc.clear()
     _last_exc.update({'type': type(e).__name__, 'name': getattr(e, 'name', None), 'frame': inner})
+
+
+def is_for_target_body_finding(src):
+    """some for loop assigns its own target again inside its body (plain, augmented or tuple assignment): liveness kills
+    the target on the loop-exit edge (root cause: C07's known finding for-target-killed-on-exit-edge), so a statement of the
+    body that reassigns the target does not declare it as an output"""
+    import ast
+    for n in ast.walk(ast.parse(src)):
+        if isinstance(n, ast.For):
+            tg = set(t.id for t in ast.walk(n.target) if isinstance(t, ast.Name))
+            for st in n.body:
+                for m in ast.walk(st):
+                    if isinstance(m, (ast.Assign, ast.AugAssign, ast.AnnAssign)):
+                        tl = m.targets if isinstance(m, ast.Assign) else [m.target]
+                        for t in tl:
+                            if tg & set(x.id for x in ast.walk(t) if isinstance(x, ast.Name) and isinstance(x.ctx, ast.Store)):
+                                return True
+    return False
 
 
 def is_prev_iteration_finding(src, b):
@@ -426,6 +445,9 @@ def check(run):
                     continue
                 if is_speculative_jump_finding(src, b):
                     run.violation('speculative branch read an undefined variable', {}, classify=KNOWN_SPECULATIVE)
+                    continue
+                if b[0] == 'return' and is_for_target_body_finding(src):
+                    run.violation('for-loop target reassigned in the body is not an output', {}, classify=KNOWN_FOR_TARGET_BODY)
                     continue
                 failures.append(('tracing backend result differs: original %r, converted %r' % (a, b), src))
             if len(run.samples) < 3 and ncalls >= 3:
